@@ -1114,14 +1114,14 @@ package lang
 //@ spec func numOf(x int) float64 = float64(x)
 
 // array.length()
-//@ func getArrayPrototype$1 [C15]
+//@ func getArrayPrototype/length [C15]
 //@   implements Value.NativeFn
 //@   ensures[C15] counts-elements: this != nil && this.Tag == ValueArray ==> err == nil && result0 != nil && result0.Tag == ValueNum && same(*result0.Num, numOf(len(this.Array)))
 //@   ensures[C16] neutral-otherwise: (this == nil || this.Tag != ValueArray) ==> err == nil && result0 != nil && result0.Tag == ValueNum && same(*result0.Num, numOf(0))
 //@   modifies nothing
 
 // array.push(x)
-//@ func getArrayPrototype$2 [C15]
+//@ func getArrayPrototype/push [C15]
 //@   implements Value.NativeFn
 //@   ensures[C15] one-argument: this != nil ==> ((err != nil) <==> len(v) != 1)
 //@   ensures[C15] refused-push-changes-nothing: err != nil ==> this.Array == old(this.Array)
@@ -1131,7 +1131,7 @@ package lang
 //@   modifies this.Array, spare(this.Array)
 
 // array.pop()
-//@ func getArrayPrototype$3 [C15]
+//@ func getArrayPrototype/pop [C15]
 //@   implements Value.NativeFn
 //@   ensures[C15] no-arguments: this != nil ==> ((err != nil) <==> len(v) != 0)
 //@   ensures[C15] empty-yields-null: this != nil && err == nil && len(old(this.Array)) == 0 ==> result0 != nil && result0.Tag == ValueNil && this.Array == old(this.Array)
@@ -1140,7 +1140,7 @@ package lang
 //@   modifies this.Array
 
 // array.popfirst()
-//@ func getArrayPrototype$4 [C15]
+//@ func getArrayPrototype/popfirst [C15]
 //@   implements Value.NativeFn
 //@   ensures[C15] no-arguments: this != nil ==> ((err != nil) <==> len(v) != 0)
 //@   ensures[C15] empty-yields-null: this != nil && err == nil && len(old(this.Array)) == 0 ==> result0 != nil && result0.Tag == ValueNil && this.Array == old(this.Array)
@@ -1151,7 +1151,7 @@ package lang
 // array.contains(x): agrees with == applied to each element in order
 //@ spec func specEq(a Value, b Value) bool = !specLess(a, b) && !specGreater(a, b)
 //@ spec func comparable(a Value, b Value) bool = a.Tag == ValueNil || b.Tag == ValueNil || (!isContainerTag(a.Tag) && !isContainerTag(b.Tag))
-//@ func getArrayPrototype$5 [C15]
+//@ func getArrayPrototype/contains [C15]
 //@   implements Value.NativeFn
 //@   ensures[C15] one-argument: this != nil && len(v) != 1 ==> err != nil
 //@   ensures[C15] found-means-some-element-equals: this != nil && err == nil && *result0.Bool ==> (exists k int :: 0 <= k && k < len(this.Array) && comparable(*v[0], this.Array[k].Value) && specEq(*v[0], this.Array[k].Value))
@@ -1161,41 +1161,41 @@ package lang
 //@   loop 0 invariant scanned: !$faulted && (forall k int :: 0 <= k && k <= rangeindex ==> comparable(*v[0], this.Array[k].Value) && !specEq(*v[0], this.Array[k].Value))
 
 // object.length()
-//@ func getObjPrototype$1 [C16]
+//@ func getObjPrototype/length [C16]
 //@   implements Value.NativeFn
 //@   ensures[C16] counts-keys: this != nil && this.Tag == ValueObj ==> err == nil && result0 != nil && result0.Tag == ValueNum && same(*result0.Num, numOf(len(*this.Obj)))
 //@   ensures[C16] neutral-otherwise: (this == nil || this.Tag != ValueObj) ==> err == nil && result0 != nil && result0.Tag == ValueNum && same(*result0.Num, numOf(0))
 //@   modifies nothing
 
 // string.length(), lower(), upper()
-//@ func getStrPrototype$1 [C16]
+//@ func getStrPrototype/length [C16]
 //@   implements Value.NativeFn
 //@   ensures[C16] counts-bytes: this != nil && this.Tag == ValueStr ==> err == nil && result0 != nil && result0.Tag == ValueNum && same(*result0.Num, numOf(len(*this.Str)))
 //@   ensures[C16] neutral-otherwise: (this == nil || this.Tag != ValueStr) ==> err == nil && result0 != nil && result0.Tag == ValueNum && same(*result0.Num, numOf(0))
 //@   modifies nothing
-//@ func getStrPrototype$3 [C16]
+//@ func getStrPrototype/lower [C16]
 //@   implements Value.NativeFn
 //@   ensures[C16] lower-cased-copy: this != nil && this.Tag == ValueStr ==> err == nil && result0 != nil && result0.Tag == ValueStr && *result0.Str == smt("s_lower", string, *this.Str)
 //@   ensures[C16] neutral-otherwise: (this == nil || this.Tag != ValueStr) ==> err == nil && result0 != nil && result0.Tag == ValueNum
 //@   modifies nothing
-//@ func getStrPrototype$4 [C16]
+//@ func getStrPrototype/upper [C16]
 //@   implements Value.NativeFn
 //@   ensures[C16] upper-cased-copy: this != nil && this.Tag == ValueStr ==> err == nil && result0 != nil && result0.Tag == ValueStr && *result0.Str == smt("s_upper", string, *this.Str)
 //@   ensures[C16] neutral-otherwise: (this == nil || this.Tag != ValueStr) ==> err == nil && result0 != nil && result0.Tag == ValueNum
 //@   modifies nothing
 
 // number.floor(), ceil(), round(): round-to-integral toward -inf, toward +inf, to nearest with ties away from zero
-//@ func getNumPrototype$1 [C16]
+//@ func getNumPrototype/floor [C16]
 //@   implements Value.NativeFn
 //@   ensures[C16] floor: this != nil && this.Tag == ValueNum ==> err == nil && result0 != nil && result0.Tag == ValueNum && same(*result0.Num, smt("frtn", float64, *this.Num))
 //@   ensures[C16] neutral-otherwise: (this == nil || this.Tag != ValueNum) ==> err == nil && result0 != nil && result0.Tag == ValueNil
 //@   modifies nothing
-//@ func getNumPrototype$2 [C16]
+//@ func getNumPrototype/ceil [C16]
 //@   implements Value.NativeFn
 //@   ensures[C16] ceil: this != nil && this.Tag == ValueNum ==> err == nil && result0 != nil && result0.Tag == ValueNum && same(*result0.Num, smt("frtp", float64, *this.Num))
 //@   ensures[C16] neutral-otherwise: (this == nil || this.Tag != ValueNum) ==> err == nil && result0 != nil && result0.Tag == ValueNil
 //@   modifies nothing
-//@ func getNumPrototype$3 [C16]
+//@ func getNumPrototype/round [C16]
 //@   implements Value.NativeFn
 //@   ensures[C16] round-half-away-from-zero: this != nil && this.Tag == ValueNum ==> err == nil && result0 != nil && result0.Tag == ValueNum && same(*result0.Num, smt("frna", float64, *this.Num))
 //@   ensures[C16] neutral-otherwise: (this == nil || this.Tag != ValueNum) ==> err == nil && result0 != nil && result0.Tag == ValueNil
@@ -1215,7 +1215,7 @@ package lang
 // is not touched.  Stated per step (site assertions); that the steps add up to "exactly the requested
 // keys with the original's values" follows with SetMember's contract (object-stored / object-others-kept)
 // by induction over the argument list (lemma L16, not machine-checked).
-//@ func getObjPrototype$2 [C16]
+//@ func getObjPrototype/pluck [C16]
 //@   implements Value.NativeFn
 //@   ensures[C16] new-object: err == nil ==> result0 != nil && fresh(result0) && result0.Tag == ValueObj && result0.Obj != nil && fresh(result0.Obj) && fresh(*result0.Obj)
 //@   assert[C16] looks-up-own-members-only: arg0.Tag == ValueObj && arg0.Proto == nil && arg0.Obj == this.Obj && arg1 == *value @ Value.GetMember
@@ -1225,10 +1225,10 @@ package lang
 
 // array.sort(): a fresh array of fresh copies, ordered by a stable library sort; the receiver is untouched.
 // The order itself (numeric when every element is a number, else by string form) is the comparator's:
-// getArrayPrototype$6$1 below.  That the result is a stably sorted permutation is the assumed contract
+// getArrayPrototype/sort$1 below.  That the result is a stably sorted permutation is the assumed contract
 // of slices.SortStableFunc.
 //@ ghost $stableSort bool
-//@ func getArrayPrototype$6 [C15]
+//@ func getArrayPrototype/sort [C15]
 //@   implements Value.NativeFn
 //@   init $stableSort = false
 //@   after slices.SortStableFunc[[]*github.com/alligator/jqawk/src.Cell *github.com/alligator/jqawk/src.Cell]: $stableSort = true
